@@ -79,7 +79,7 @@ def vm_sample(chk, res, n=12):
 
 def run(chk):
     chk.assumptions = list(wc.ASSUMPTIONS)
-    proof_ok = wc.proof_stage(chk, THEOREMS, e2e_theorems=["C08_no_panic_byte_debug", "C08_no_panic_channel_debug"])
+    proof_ok = wc.proof_stage(chk, THEOREMS, e2e_theorems=["C08_no_panic_byte_debug", "C08_no_panic_channel_debug", "C08_partial_dropped_byte"])
     runs = []
     for profile in ("release",) + (("debug",) if chk.tier == "thorough" else ()):
         r = wc.run_harness(chk, "c08", profile)
